@@ -108,6 +108,8 @@ func rankLess(a, b [3]int) bool {
 type c07Case struct {
 	Rules  []string `json:"rules"`
 	Select bool     `json:"select,omitempty"`
+	// DocSelect: Rules are referrer rules; the document-rule selection is checked over all permutations
+	DocSelect bool `json:"doc_select,omitempty"`
 	// Specials: badfilter twins of some Rules and $dnsrewrite rules; they take part in the
 	// selection input but are never candidates themselves (a badfilter'ed rule is not one either)
 	Specials []string `json:"specials,omitempty"`
@@ -196,6 +198,10 @@ func checkC07(c c07Case, rec *Rec) *Violation {
 	if v != nil {
 		return v
 	}
+	if c.DocSelect {
+		rec.NonTrivial("doc|"+strings.Join(c.Rules, "\n"), c)
+		return c07CheckDocSelection(c.Rules)
+	}
 	if v = c07Laws(c.Rules, rs); v != nil {
 		return v
 	}
@@ -274,6 +280,56 @@ func checkC07(c c07Case, rec *Rec) *Violation {
 		return true
 	})
 	rec.LabelN("permutations_checked", nperm)
+	return res
+}
+
+// c07DocPool: referrer rules competing for the document-level result.
+var c07DocPool = []string{"@@||x.com^$urlblock", "@@||x.com^$genericblock", "@@||x.com^$urlblock,important", "@@||x.com^$genericblock,important",
+	"@@||x.com^$document", "@@||x.com^$urlblock,stealth", "@@||x.com^$genericblock,domain=a.com", "@@||x.com^$urlblock,ctag=x,client=1.1.1.1",
+	"@@||x.com^$elemhide", "||x.com^", "@@||x.com^$stealth"}
+
+// c07CheckDocSelection: the document rule chosen from the referrer rules is a
+// document-level exception that no other such candidate outranks, for every order.
+func c07CheckDocSelection(texts []string) *Violation {
+	const id = "C07"
+	rs, v := c07Parse(texts)
+	if v != nil {
+		return v
+	}
+	isDoc := func(s string) bool {
+		return strings.HasPrefix(s, "@@") && (strings.Contains(s, "urlblock") || strings.Contains(s, "genericblock") || strings.Contains(s, "document"))
+	}
+	var docs []*rules.NetworkRule
+	for i, s := range texts {
+		if isDoc(s) {
+			docs = append(docs, rs[i])
+		}
+	}
+	var res *Violation
+	permutations(len(rs), func(p []int) bool {
+		src := make([]*rules.NetworkRule, len(p))
+		for i, x := range p {
+			src[i] = rs[x]
+		}
+		d := rules.NewMatchingResult(nil, src).DocumentRule
+		if d == nil {
+			if len(docs) > 0 {
+				res = viol(id, "C07:no-document-rule", "referrer rules %q: no DocumentRule although document-level exceptions are present", netTexts(src))
+			}
+			return res == nil
+		}
+		if !isDoc(d.Text()) {
+			res = viol(id, "C07:document-rule-not-a-candidate", "referrer rules %q: DocumentRule %q is not a document-level exception", netTexts(src), d.Text())
+			return false
+		}
+		for _, o := range docs {
+			if o.IsHigherPriority(d) {
+				res = viol(id, "C07:document-rule-outranked", "referrer rules %q: DocumentRule %q is outranked by %q", netTexts(src), d.Text(), o.Text())
+				return false
+			}
+		}
+		return true
+	})
 	return res
 }
 
@@ -423,5 +479,8 @@ func TestC07(t *testing.T) {
 	}
 	runProp(t, "C07", checkC07, exhaustive,
 		part[c07Case]{"laws-sampled", scale(3000, 30000), genLaws},
-		part[c07Case]{"selection", scale(1500, 12000), genSelect})
+		part[c07Case]{"selection", scale(1500, 12000), genSelect},
+		part[c07Case]{"document-rule-selection", scale(600, 4000), func(t *rapid.T) c07Case {
+			return c07Case{Rules: subsetOf(t, "doc-cands", c07DocPool, 5), DocSelect: true}
+		}})
 }
